@@ -474,14 +474,53 @@ pub fn many_flow_set(cfg: &Cfg, n: usize, dport: u16, rep: &mut Report) -> Vec<(
     let outs = engine::map_cmds(cfg, &syns, "many-flows-syn-learn", false, &mut rep.sink);
     let mut seen = std::collections::HashSet::new();
     let mut v = Vec::with_capacity(n);
+    let (mut dup, mut or_mask, mut and_mask, mut total) = (0u64, 0u32, 0xffff_ffffu32, 0u64);
     for (f, o) in cand.into_iter().zip(outs.iter()) {
         if let Some(c) = o.reply.as_deref().and_then(synack_seq) {
-            if seen.insert(c) && v.len() < n {
-                v.push((f, c));
+            total += 1;
+            or_mask |= c;
+            and_mask &= c;
+            if seen.insert(c) {
+                if v.len() < n {
+                    v.push((f, c));
+                }
+            } else {
+                dup += 1;
             }
         }
     }
+    rep.extra.insert("many_flows_cookie_stats".into(), serde_json::json!({"flows": total, "equal_cookies": dup, "or_mask": format!("{:#010x}", or_mask), "and_mask": format!("{:#010x}", and_mask)}));
     v
+}
+
+/// The cookie space is the full 32 bits: over tens of thousands of distinct flows every bit of the
+/// cookie takes both values, and the number of flows whose cookie equals an earlier flow's stays
+/// within what 32 uniformly distributed bits give (n^2 / 2^33: 0.6 for 71 400 flows; more than 6
+/// has probability < 10^-5).  Equal cookies are shared control blocks (C09 / C08 / C06).
+pub fn cookie_space_check(cfg: &Cfg, rep: &mut Report, prop: &'static str) {
+    let st = match rep.extra.get("many_flows_cookie_stats") {
+        Some(s) => s.clone(),
+        None => return,
+    };
+    let flows = st["flows"].as_u64().unwrap_or(0);
+    if flows < 20_000 {
+        return;
+    }
+    let dup = st["equal_cookies"].as_u64().unwrap_or(0);
+    let or_mask = st["or_mask"].as_str().unwrap_or("").to_string();
+    let and_mask = st["and_mask"].as_str().unwrap_or("").to_string();
+    let expect = (flows as f64) * (flows as f64) / 8_589_934_592.0;
+    if or_mask != "0xffffffff" || and_mask != "0x00000000" || (dup as f64) > expect * 4.0 + 6.0 {
+        rep.sink.violation(Violation {
+            prop: prop.into(),
+            key: "cookie-space-smaller-than-32-bits".into(),
+            what: format!("{} distinct flows: {} have a cookie equal to an earlier flow's (32 uniform bits give about {:.1}); OR of all cookies {}, AND {}", flows, dup, expect, or_mask, and_mask),
+            cfg: cfg.clone(),
+            cmds: vec![],
+            idx: 0,
+            stage: "many-flows-syn-learn".into(),
+        });
+    }
 }
 
 /// One process: `head` frames, then `n` other flows each sending one valid-cookie data segment
@@ -724,6 +763,24 @@ pub fn source_mac_stage(cfg: &Cfg, rep: &mut Report, prop: &'static str) {
                 let cmds = vec![Cmd::Reset, Cmd::Frame(fb.tcp(1000, ca.wrapping_add(1), F_PSH | F_ACK, HTTP_REQ)), Cmd::Frame(fa.tcp(1000, ca.wrapping_add(1), F_PSH | F_ACK, HTTP_REQ)), Cmd::Frame(fb.tcp(1000, cb.wrapping_add(1), F_PSH | F_ACK, HTTP_REQ))];
                 let o2 = d.exec(&cmds).unwrap_or_default();
                 n += 3;
+                // a VALIDATED flow stays validated whichever neighbour (and whichever accepted
+                // destination MAC) its later segments use: the client now acknowledges the reply
+                if prop == "C07" {
+                    let mut fbb = fb.clone();
+                    fbb.smac = [0xff; 6];
+                    let later = ca.wrapping_add(1).wrapping_add(393);
+                    let c3 = vec![Cmd::Reset, Cmd::Frame(fa.tcp(1000, ca.wrapping_add(1), F_PSH | F_ACK, HTTP_REQ)), Cmd::Frame(fb.tcp(1018, later, F_PSH | F_ACK, b"x")), Cmd::Frame(fbb.tcp(1019, later, F_PSH | F_ACK, b"y")), Cmd::Frame(fa.tcp(1020, later, F_PSH | F_ACK, b"z"))];
+                    let o3 = d.exec(&c3).unwrap_or_default();
+                    n += 4;
+                    if o3.len() == 5 && o3[1].reply.is_some() {
+                        for k in 2..5 {
+                            if o3[k].reply.is_none() {
+                                rep.sink.violation(Violation { prop: "C07".into(), key: "validated-flow-dropped-via-other-neighbour".into(), what: format!("a flow validated through {} is no longer answered when a later segment (other acknowledgement number) arrives from {} / to {}", mac_str(a), mac_str(if k == 4 { a } else { b }), if k == 3 { "the broadcast MAC" } else { "the configured MAC" }), cfg: cfg.clone(), cmds: c3[..=k].to_vec(), idx: n, stage: "source-mac".into() });
+                                break;
+                            }
+                        }
+                    }
+                }
                 if o2.len() == 4 {
                     if prop == "C07" && o2[1].reply.is_none() {
                         bad = Some(("data-unanswered-via-other-neighbour".into(), format!("data acknowledging the flow's cookie + 1 is not answered when it arrives from {} (the SYN-ACK went to {})", mac_str(b), mac_str(a)), cmds[..2].to_vec()));
@@ -1222,6 +1279,7 @@ pub fn run_c09(rep: &mut Report, thorough: bool) {
     // cap, no wrap of a narrow counter), and afterwards every flow still owns its partial request
     let t0 = std::time::Instant::now();
     let fl = many_flow_set(&s.cfg, 70000, 80, rep);
+    cookie_space_check(&s.cfg, rep, "C09");
     if fl.len() < 1000 {
         rep.extra.insert("many_flows_stage".into(), serde_json::json!(format!("skipped: only {} SYN cookies could be learned", fl.len())));
         return;
